@@ -138,6 +138,8 @@ def make_instances(prop, tier, seed, shapes, fn):
                 for kind in ("mh", "entryhash", "fetch", "json"):
                     add(shape, rep, kind, -1, 2, faults={i: kd}, tag="malformed")
                 add(shape, rep, "mh", 3, 2, faults={i: kd}, tag="malformed+limit")
+                add(shape, rep, "mh", -1, 1, faults={i: kd}, tag="malformed+conc1")
+                add(shape, rep, "fetch", -1, 1, faults={i: kd}, tag="malformed+conc1")
         elif prop == "C11":
             ids = sorted(info["ents"])
             kinds = ["missing", "error", "garbage"]
@@ -147,6 +149,9 @@ def make_instances(prop, tier, seed, shapes, fn):
                     for conc in ((2,) if q else (1, 2, 3)):
                         add(shape, rep, "fetch", -1, conc, faults={i: kd}, tag="fault1")
                         add(shape, rep, "mh", -1, conc, faults={i: kd}, tag="fault1")
+                    # one slot only: a faulty block must give its slot back, or nothing else is ever fetched
+                    add(shape, rep, "fetch", -1, 1, faults={i: kd}, tag="fault1c1")
+                    add(shape, rep, "mh", -1, 1, faults={i: kd}, tag="fault1c1")
                     # the loaders that derive the heads from what they could fetch (islands below a gap keep their tops)
                     add(shape, rep, "entry", -1, 2, faults={i: kd}, tag="fault1")
                     add(shape, rep, "json", -1, 2, faults={i: kd}, tag="fault1")
